@@ -255,6 +255,8 @@ def run(chk: Check) -> None:
             return env["code"]
         raise AnalysisError(f"R13.4: unrecognised value assigned to the exit status: {norm(expr)[:80]}")
 
+    from ..cfg import branch_conditions
+    mparents = mn.module.parents()
     bad_rows = []
     rows = 0
     for M in (False, True):
@@ -265,11 +267,11 @@ def run(chk: Check) -> None:
                         continue  # a non-note message implies a message
                     env = {"M": M, "N": N, "B": B, "I": I, "code": None}
                     for a in assigns:
-                        conj, _ = guard_chain(mn, a)
-                        if any("install_types" in norm(c) for c in conj):
+                        conj, negs = branch_conditions(mparents, mn.node, a)
+                        if any("install_types" in norm(c) for c in conj + negs):
                             taken = env["I"]  # the documented install-types override, as one atom
                         else:
-                            taken = all(atom(c, env) for c in conj)
+                            taken = all(atom(c, env) for c in conj) and not any(atom(c, env) for c in negs)
                         if taken:
                             env["code"] = value(a.value, env)
                     want = 2 if I else (0 if not (M and N) else (2 if B else 1))
